@@ -98,7 +98,8 @@ def _offset(spec, n, shape, forward_len=None):
     raw = spec[1]
     flat = [raw[j % len(raw)] % (2 * n + 1) for j in range(numel)]
     arr = np.array(flat, dtype=np.int64).reshape(shape)
-    return arr, torch.tensor(arr, dtype=torch.int64)
+    odt = {"i32": torch.int32, "u8": torch.uint8}.get(spec[2] if len(spec) > 2 else None, torch.int64)
+    return arr, torch.tensor(arr, dtype=odt)  # offsets are small non-negative integers: any integer dtype holds them
 
 
 def run_ops(rt, ring, case, ops, stats):
@@ -228,6 +229,17 @@ def run_ops(rt, ring, case, ops, stats):
             if fill is not None:
                 ring.reset(fill)
             check(rt.pointer == 0, "reset:pointer", lambda: f"{what}: pointer {rt.pointer} != 0")
+        elif name == "bad_push":
+            # a push of a wrong-shaped observation must be rejected with ValueError and leave the record untouched
+            bad = torch.zeros(shape + (2,), dtype=DT[ring.dtype]) if op[1] else torch.zeros((3,) + shape + (1,), dtype=DT[ring.dtype])
+            try:
+                rt.push(bad, inplace=op[2])
+            except ValueError:
+                pass
+            except Exception as e:  # noqa: BLE001
+                raise Violation("reject:wrongexc", f"{what}: {type(e).__name__}: {e}") from e
+            else:
+                raise Violation("reject:accepted", f"{what}: wrong-shaped observation accepted by push")
         elif name == "bad_write":
             # wrong observation shape must be rejected with ValueError, state untouched
             bad = torch.zeros(shape + (2,), dtype=DT[ring.dtype]) if op[1] else torch.zeros((3,) + shape + (1,), dtype=DT[ring.dtype])
@@ -309,6 +321,7 @@ def _offspec():
     return st.one_of(
         st.tuples(st.just("s"), _raw),
         st.tuples(st.just("t"), st.lists(_raw, min_size=1, max_size=6)),
+        st.tuples(st.just("t"), st.lists(_raw, min_size=1, max_size=6), st.sampled_from(["i32", "u8"])),
     ).map(list)
 
 
@@ -333,6 +346,7 @@ def _op(mixed):
         st.tuples(st.just("align"), _raw),
         st.tuples(st.just("reset"), st.sampled_from([0, None, None, 3, -2])),
         st.tuples(st.just("bad_write"), b, b),
+        st.tuples(st.just("bad_push"), b, b),
         st.tuples(st.just("long_writerange"), _raw, b, b),
     ).map(list)
 
